@@ -13,6 +13,10 @@ structure Hashes where
   keccak : Bytes → Bytes
   /-- `coinbase_tx_get_hash` on a coinbase of at least 40 bytes (32 bytes, already reversed) -/
   cbHash : Bytes → Bytes
+  /-- headers nested so deep that pyrlp's recursive decode / encode hits CPython's recursion
+      limit (an outcome of the interpreter, given as an input like the JSON decode outcome);
+      `block_utils` reports them as malformed (ValueError) -/
+  tooDeep : Bytes → Bool := fun _ => false
 
 /-- `coinbase_tx_get_hash`: `set_midstate` needs 40 bytes of coinbase; `none` = `ValueError` -/
 def coinbaseHash (h : Hashes) (cb : Bytes) : Option Bytes :=
@@ -102,6 +106,7 @@ def sendBlockHeader (h : Hashes) (c : BlockCfg) (isBrother : Bool) (block : Opti
   -- A. metadata (ValueError / OverflowError ⇒ ERROR_COMPUTE_METADATA)
   let metaData : Option Bytes := do
     let raw ← block
+    if h.tooDeep raw then none
     let sz ← Block.mmPayloadSize raw
     if sz ≥ 2 ^ 16 then none
     else
@@ -207,6 +212,7 @@ def advanceBlockchain (h : Hashes) (blocks : List (Option Bytes))
   let keyed : Option (List (List (Bytes × Bytes))) :=
     brothers.mapM fun bl => bl.mapM fun b => do
       let raw ← b
+      if h.tooDeep raw then none
       let k ← Block.blockHash h.keccak raw
       pure (k, raw)
   match keyed with
@@ -217,7 +223,7 @@ def advanceBlockchain (h : Hashes) (blocks : List (Option Bytes))
 
 /-- `update_ancestor(blocks)` -/
 def updateAncestor (h : Hashes) (blocks : List (Option Bytes)) : M OpOut :=
-  match blocks.mapM fun b => b.bind fun raw => Block.removeMM raw true with
+  match blocks.mapM fun b => b.bind fun raw => if h.tooDeep raw then none else Block.removeMM raw true with
   | none => pure (false, UpdateAncestorResponse_ERROR_REMOVE_MM_FIELDS)
   | some opt => doBlockOperation h updCfg (opt.map some) []
 
